@@ -407,6 +407,9 @@ class Program:
             if name in c.methods:
                 return c, c.methods[name]
             if name in c.assigns:
+                fn_alias = self._function_alias(c, c.assigns[name])
+                if fn_alias is not None:
+                    return c, [fn_alias]          # NAME = staticmethod(module_function) / NAME = module_function
                 return c, c.assigns[name]
             prefix = f"_{c.name.lstrip('_')}__"
             if name.startswith(prefix):          # name-mangled private member
@@ -416,6 +419,16 @@ class Program:
                 if alt in c.assigns:
                     return c, c.assigns[alt]
         return None, None
+
+    def _function_alias(self, c: ClassInfo, expr):
+        inner = expr
+        if isinstance(expr, ast.Call) and isinstance(expr.func, ast.Name) and expr.func.id in ("staticmethod", "classmethod") and len(expr.args) == 1:
+            inner = expr.args[0]
+        if isinstance(inner, ast.Name):
+            r = self.resolve_global(c.module, inner.id)
+            if r and r[0] == "func":
+                return r[1]
+        return None
 
     def is_subclass(self, ci: ClassInfo, other: ClassInfo) -> bool:
         return other in self.mro(ci)
